@@ -190,7 +190,7 @@ class EpollIoCancel(Unit):
                 out.append((2, "!deliver"))
             elif n == "!STALE" and (" " + comp + " ") in (" " + r + " "):
                 out.append((2, "!STALE"))
-            elif n in ("!write", "!read") and r.startswith("peerfd ") and t == peer_t and not peer_seen and k == 0:
+            elif n in ("!write", "!read") and r.startswith("peerfd ") and t == peer_t and not peer_seen:
                 mm = re.match(r"peerfd rc=(-?\d+)", r)
                 if int(mm.group(1)) > 0:
                     out.append((4, "!peer")); peer_seen = True
@@ -210,7 +210,7 @@ class EpollIoCancel(Unit):
     def post_check(self, prog, summary, proj):
         f = dict(kv.split("=", 1) for kv in summary.split(" ") if "=" in kv)
         comp = [e for _, e in proj if e.startswith("!complete")]
-        want = ",".join(c[len("!complete "):] for c in comp)
+        want = ",".join(c[len("!complete "):].replace(" ", ":") for c in comp)
         if f.get("completed", "") != want:
             return "model completions %r differ from the implementation's %r: %s" % (f.get("completed"), want, summary)
         if VARIANT == "fixed":
